@@ -59,3 +59,24 @@ pub fn project_cmd(texts: &[String]) -> String {
         ),
     }
 }
+
+/// `projedit f1hex f2hex ... | i:hex i:hex ...`: the in-memory project first holds the texts before `|` and is
+/// analysed, then every edit `i:hex` replaces file `i` (change_text_document) and the project is analysed again.
+/// Answer: the result of the last analysis, in the format of `project` (C03/C11: it must equal a fresh project's).
+pub fn projedit_cmd(initial: &[String], edits: &[(usize, String)]) -> String {
+    let mut p = FileBackedProject::new();
+    for (i, t) in initial.iter().enumerate() {
+        let fid = FileId::from_string(&format!("f{}.st", i));
+        p.change_text_document(&fid, t.clone());
+    }
+    let mut last = p.semantic().map_err(|ds| ds.iter().map(show_diag).collect::<Vec<_>>().join(" "));
+    for (i, t) in edits {
+        let fid = FileId::from_string(&format!("f{}.st", i));
+        p.change_text_document(&fid, t.clone());
+        last = p.semantic().map_err(|ds| ds.iter().map(show_diag).collect::<Vec<_>>().join(" "));
+    }
+    match last {
+        Ok(()) => "OK".to_string(),
+        Err(s) => format!("ERR {}", s),
+    }
+}
